@@ -1,6 +1,7 @@
 import Vet.Model.Wire
 import Vet.Model.Commands
 import Vet.Model.Report
+import Vet.Model.Renew
 open Vet Vet.Wire
 
 structure DState where
@@ -119,6 +120,23 @@ def handle (st : DState) (kw : String) (toks : List Nat) : DState × String :=
         match k with
         | .plain n => [n, 0]
         | .withVersion n v => [n, v + 1])))
+  | "renew" =>
+    -- renew <mode> <today> <cap> <arg> <crates>; mode 0 = --expiring (arg = ignore-inactive flag),
+    -- mode 1 = one crate (arg = its name); answers the end dates per crate
+    let entryP : P Renew.Entry := do
+      let stop ← nat
+      let r ← nat
+      pure ⟨stop, match r with | 0 => none | 1 => some false | _ => some true⟩
+    let crateP : P Renew.Crate := do
+      let n ← nat
+      let lp ← optNat
+      let es ← list entryP
+      pure ⟨n, lp, es⟩
+    match run (pair (pair nat nat) (pair (pair nat nat) (list crateP))) toks with
+    | none => (st, "bad-case")
+    | some ((mode, today), ((cap, arg), t)) =>
+      let t' := if mode = 0 then Renew.renewExpiring today cap (arg != 0) t else Renew.renewCrate cap arg t
+      (st, "ok " ++ show_ (t'.length :: t'.flatMap (fun c => c.name :: listToks (c.entries.map (·.stop)))))
   | "cmdmode" =>
     -- the mode a command hands to the updater for crate `name` (Vet/Model/Commands.lean)
     match toks with
